@@ -168,7 +168,9 @@ Proof.
   destruct (starts_with s _); [apply okP_err_at|].
   sb (advance_ascii text Hvalid 2). intros s1 E1 H1. cbv beta.
   sb consume_name_safe. intros [target s2] _ [H2 _]. cbv beta iota zeta.
-  pose proof (skip_spaces_safe text Hvalid s2 ltac:(eauto)) as H3.
+  eapply okP_bind with (Q' := Ext s2).
+  { apply okP_safe. destruct (starts_with s2 _); [cbn; eauto|]. eapply consume_spaces_safe; eauto. }
+  intros s3 H3. cbv beta.
   sb consume_chars_safe. intros [content s4] _ [H4 _]. cbv beta iota.
   sb skip_string_safe. intros s5 _ H5. cbv beta.
   eapply okP_bind; [eapply (ev_step _ s s5); [exact Hc|]|].
